@@ -26,7 +26,10 @@ import (
 //          with the firing. Race reports are attributed to the pair through the @@CASE marker.
 // soak     (-race) mixed random workload: 3 connections, 6-10 API goroutines, heartbeat running, approval callbacks
 //          with a 15 ms timeout, fixed operation count, per-goroutine progress watchdog.
-// deadlock (plain) the same workload at higher speed plus four targeted lock-order scenarios.
+// deadlock (plain) the same workload at higher speed plus six targeted lock-order scenarios (the last two: writes that are
+//          approved at once || removal notifies of unrelated entities on all connections || DeviceLocal.CleanRemoteEntityCaches
+//          from an application goroutine; connections WITHOUT writer - every send fails - whose discovery replies are handled
+//          and to which requests are sent again and again, next to healthy connections).
 //
 // Oracle: a race report whose one side is a spine-go frame = violation race/<Type.field> (rig/race.go); an
 // operation that does not return keeps the case waiting so that the parent's quiet-period monitor takes the
@@ -40,8 +43,10 @@ func init() {
 		ID:    "C17",
 		Floor: len(pairs) / 2,
 		Rule: fmt.Sprintf("duel: %d operations covering the public API and every inbound message kind, all %d unordered pairs (incl. self pairs), one case per pair with r repetitions (quick 3, thorough 40; +2/+8 with jitter hooks for pairs passing a hook window) "+
-			"over prior states rich/busy/sparse/churned and same/other connection variants. soak/deadlock: seeded random mix of the same operations on 3 connections with 6-10 goroutines. "+
-			"A case is non-trivial if every operation it started returned (no watchdog expiry) ; distinct = distinct pair (duel) / distinct (part, scenario, goroutine count) otherwise.", len(ops), len(pairs)),
+			"over prior states rich/busy/sparse/churned and same/other connection variants. soak/deadlock: seeded random mix of the same operations on 3 connections (plus up to two connections without writer, set up by the operation that uses them) with 6-10 goroutines; "+
+			"deadlock additionally runs %d targeted scenarios x 3 (thorough 25) with 300 (1500) iterations per worker: approve|disconnect|clean, publish|handlers-calling-back|subscribe, RemoveEntity|inbound|disconnect, heartbeat|RemoveEntity|SetData, "+
+			"auto-approved-writes(k=1|2)|entity-removal-notify|CleanRemoteEntityCaches, mute-connections|healthy-connections. "+
+			"A case is non-trivial if every operation it started returned (no watchdog expiry) ; distinct = distinct pair (duel) / distinct (part, scenario, goroutine count) otherwise.", len(ops), len(pairs), c17Scenarios),
 		Assumptions: []string{
 			"a clean matrix means: no race between any two of these operations in these prior states, not 'for all schedules'",
 			"the messages of ONE connection are delivered one after the other (per-connection harness mutex), as SHIP's synchronous read loop does (ws readPump -> HandleIncomingWebsocketMessage -> HandleShipPayloadMessage); messages of different connections, API calls, timers and heartbeats run concurrently with them, so the same-connection variant of an inbound x inbound pair is 'both orders, unsynchronised start', not 'overlapping'",
@@ -51,7 +56,9 @@ func init() {
 		Parts: []rig.Part{
 			{Name: "duel", Race: true, Cases: func(t rig.Tier) int { return len(pairs) }, Run: c17DuelCase, Quiet: 45 * time.Second, Chunk: 20, Procs: 4},
 			{Name: "soak", Race: true, Cases: func(t rig.Tier) int { return map[rig.Tier]int{rig.Quick: 10, rig.Thorough: 100}[t] }, Run: c17SoakCase, Quiet: 45 * time.Second, Chunk: 1, Procs: 8, Workers: 8},
-			{Name: "deadlock", Cases: func(t rig.Tier) int { return map[rig.Tier]int{rig.Quick: 8 + 4*3, rig.Thorough: 60 + 4*25}[t] }, Run: c17DeadlockCase, Quiet: 45 * time.Second, Chunk: 2, Procs: 8, Workers: 8},
+			{Name: "deadlock", Cases: func(t rig.Tier) int {
+				return map[rig.Tier]int{rig.Quick: 8 + c17Scenarios*3, rig.Thorough: 60 + c17Scenarios*25}[t]
+			}, Run: c17DeadlockCase, Quiet: 45 * time.Second, Chunk: 2, Procs: 8, Workers: 8},
 		},
 		Extra: func(agg *rig.Aggregate, cov map[string]any) {
 			cov["operations"] = len(ops)
@@ -69,6 +76,8 @@ func init() {
 		},
 	})
 }
+
+const c17Scenarios = 6 // targeted scenarios of the deadlock part
 
 func c17Pairs(n int) [][2]int {
 	var ps [][2]int
@@ -483,9 +492,15 @@ func c17DeadlockCase(c *rig.Ctx) {
 		c17Report(c, fmt.Sprintf("mixed/g%d", g), done, per, cw, map[string]any{"goroutines": g, "connections": 3})
 		return
 	}
-	kind := (c.Index - nSoak) % 4
+	kind := (c.Index - nSoak) % c17Scenarios
+	round := (c.Index - nSoak) / c17Scenarios
 	iters := c.Pick(300, 1500)
-	cw := c17SoakWorld(c)
+	var cw *c17W
+	if kind == 4 {
+		cw = c17Build(c, c.Tag(), 0, 3, true) // no approval policy of the soak: this scenario registers its own callbacks
+	} else {
+		cw = c17SoakWorld(c)
+	}
 	e1a := []uint{1}
 	r := func() *rand.Rand { return rand.New(rand.NewSource(c.Rand.Int63())) }
 	write := func(v int) {
@@ -590,6 +605,115 @@ func c17DeadlockCase(c *rig.Ctx) {
 				return "api.Registries"
 			}},
 		}
+	case 4:
+		// A stream of writes that are approved at once (the approval callbacks call ApproveOrDenyWrite from the goroutine the
+		// stack runs them on: muxWriteReceived -> muxResponseCB -> data lock of the feature while the write is applied)
+		// against everything that runs FeatureLocal.CleanRemoteEntityCaches on the same local feature: removal (and
+		// re-addition) of an unrelated entity announced by the writing peer itself between its writes, by the two other
+		// peers on their own connections, and DeviceLocal.CleanRemoteEntityCaches called by an application goroutine.
+		k := 1 + round%2
+		name = fmt.Sprintf("auto-approved-writes(k=%d)|entity-removal-notify|CleanRemoteEntityCaches", k)
+		cw.lc.SetWriteApprovalTimeout(10 * time.Second)
+		for i := 0; i < k; i++ {
+			cw.nApproval.Add(1)
+			_ = cw.lc.AddWriteApprovalCallback(func(m *api.Message) {
+				defer cw.guardCB("approval")
+				cw.cbRuns.Add(1)
+				cw.lc.ApproveOrDenyWrite(m, model.ErrorType{})
+			})
+		}
+		var writerDone atomic.Bool
+		removeAdd := func(s, i int) {
+			d := cw.discovery(s, nil, nil, [][]uint{{2}})
+			if i%2 == 1 {
+				d = cw.discovery(s, c17Feats()[4:], map[string]model.NetworkManagementStateChangeType{"[2]": model.NetworkManagementStateChangeTypeAdded}, nil)
+			}
+			cw.in(s, model.CmdClassifierTypeNotify, cw.nm(s), rig.LNM, false, nil, model.CmdType{Function: ptrFn(model.FunctionTypeNodeManagementDetailedDiscoveryData),
+				Filter: []model.FilterType{*model.NewFilterTypePartial()}, NodeManagementDetailedDiscoveryData: d})
+		}
+		// the other workers keep going until the writer is through (their step counts are only an upper bound)
+		until := func(f func(i int) string) func(i int) string {
+			return func(i int) string {
+				if writerDone.Load() {
+					return "idle"
+				}
+				return f(i)
+			}
+		}
+		ws = []c17Worker{
+			{name: "writer", steps: 2 * iters, step: func(i int) string {
+				write(i)
+				if round != 1 && i%2 == 1 {
+					removeAdd(0, i/2)
+				}
+				if i == 2*iters-1 {
+					writerDone.Store(true)
+				}
+				return "in.write.limits"
+			}},
+			{name: "remover1", steps: 40 * iters, step: until(func(i int) string { removeAdd(1, i); return "in.discovery.notify.remove" })},
+			{name: "remover2", steps: 40 * iters, step: until(func(i int) string { removeAdd(2, i); return "in.discovery.notify.remove" })},
+			{name: "cleaner", steps: 400 * iters, step: until(func(i int) string {
+				cw.local.CleanRemoteEntityCaches(rig.EA(cw.cn(i%3).addr, []uint{2}))
+				if i%32 == 0 {
+					runtime.Gosched()
+				}
+				return "api.CleanRemoteEntityCaches"
+			})},
+			{name: "reader", steps: 40 * iters, step: until(func(i int) string {
+				_ = rig.JS(cw.lc.DataCopy(model.FunctionTypeLoadControlLimitListData))
+				_ = cw.mcl.HasSubscriptionToRemote(cw.pa(i%3, e1a, 2))
+				return "api.DataCopy.local"
+			})},
+		}
+	case 5:
+		// connections without writer next to healthy ones: every send to a mute connection fails, and every request
+		// (API calls, and the subscribe + use case request the stack issues while it handles the peer's discovery reply
+		// inside Events.Publish) must return all the same, again and again
+		name = "mute-connections|healthy-connections"
+		rr := r()
+		inboundOfMute := func(m *c17Mute, send func(cl model.CmdClassifierType, src, dst *model.FeatureAddressType, ack bool, ref *model.MsgCounterType, cmd model.CmdType)) {
+			nm := rig.FA(m.addr, []uint{0}, 0)
+			send(model.CmdClassifierTypeRead, nm, rig.LNM, false, nil, model.CmdType{NodeManagementUseCaseData: &model.NodeManagementUseCaseDataType{}})
+			send(model.CmdClassifierTypeCall, nm, rig.LNM, true, nil, model.CmdType{NodeManagementSubscriptionRequestCall: spine.NewNodeManagementSubscriptionRequestCallType(rig.FA(m.addr, e1a, 1), cw.lc.Address(), model.FeatureTypeTypeLoadControl)})
+		}
+		ws = []c17Worker{
+			{name: "mute0-api", steps: iters, step: func(i int) string {
+				cw.muteRequests(0, cw.muteIn(0, false, false), i)
+				return "mute.discovery-reply+requests"
+			}},
+			{name: "mute1-api", steps: iters, step: func(i int) string {
+				cw.muteRequests(1, cw.muteIn(1, false, false), i)
+				return "mute.discovery-reply+requests"
+			}},
+			{name: "mute-inbound", steps: iters, step: func(i int) string {
+				cw.muteIn(i%2, i%40 == 39, true, inboundOfMute)
+				return "mute.discovery-reply+requests"
+			}},
+			{name: "healthy-inbound0", steps: iters, step: func(i int) string {
+				cw.in(0, model.CmdClassifierTypeRead, cw.nm(0), rig.LNM, false, nil, model.CmdType{NodeManagementDetailedDiscoveryData: &model.NodeManagementDetailedDiscoveryDataType{}})
+				cw.in(0, model.CmdClassifierTypeNotify, cw.pa(0, e1a, 2), cw.mcl.Address(), false, nil, c17MeasCmd(i, i%2 == 0))
+				return "in.notify.meas"
+			}},
+			{name: "healthy-announce2", steps: iters, step: func(i int) string { cw.announce(2); return "in.discovery.reply" }},
+			{name: "healthy-api1", steps: iters, step: func(i int) string {
+				a := cw.pa(1, e1a, 2)
+				_, _ = cw.mcl.SubscribeToRemote(a)
+				if f := cw.rf(1, e1a, 2); f != nil {
+					_, _ = cw.mcl.RequestRemoteData(model.FunctionTypeMeasurementListData, nil, nil, f)
+				}
+				_, _ = cw.local.RequestRemoteDetailedDiscoveryData(cw.rd(1))
+				if rr.Intn(2) == 0 {
+					_, _ = cw.mcl.RemoveRemoteSubscription(a)
+				}
+				return "api.SubscribeToRemote"
+			}},
+			{name: "publisher", steps: iters, step: func(i int) string {
+				cw.lc.SetData(model.FunctionTypeLoadControlLimitListData, c17Limits(i)) // notifies the subscribers, a mute one among them
+				spine.Events.Publish(api.EventPayload{Ski: cw.cn(2).ski, EventType: api.EventTypeDataChange, ChangeType: api.ElementChangeUpdate, Device: cw.rd(2)})
+				return "api.Events.Publish"
+			}},
+		}
 	default:
 		name = "heartbeat|RemoveEntity|SetData"
 		cw.dd2.AddFunctionType(model.FunctionTypeDeviceDiagnosisHeartbeatData, true, false)
@@ -627,6 +751,8 @@ func c17DeadlockCase(c *rig.Ctx) {
 		}
 	}
 	done, per := c17Run(c, name, ws)
+	done -= per["idle"] // steps of workers that only waited for the end of the scenario are not operations
+	delete(per, "idle")
 	if ok, _ := rig.Guard(c17OpGuard, cw.close); !ok {
 		c17Stuck(c, "teardown after scenario "+name)
 	}
